@@ -2,11 +2,59 @@
 package c02
 
 import (
+	"context"
 	"fmt"
+	"strconv"
+	"strings"
+	"sync/atomic"
+	"time"
 
 	"verif/internal/pipe"
+	"verif/internal/rig"
 	"verif/internal/vp"
 )
+
+// hooks: the forced-flush-overlap family issues its force stop from a harness
+// action at the scheduling point right before the commit of the k-th flush.
+func hooks(sc *pipe.Scenario) *pipe.Hooks {
+	i := strings.Index(sc.Name, "forced-flush-overlap:")
+	if i < 0 {
+		return nil
+	}
+	k, _ := strconv.Atoi(sc.Name[i+len("forced-flush-overlap:"):])
+	return &pipe.Hooks{AfterBuild: func(r *rig.Rig, sc *pipe.Scenario) {
+		if r.Points == nil {
+			return
+		}
+		var n atomic.Int64
+		r.Points.On("connector.persister.before-commit", func() {
+			if n.Add(1) != int64(k) {
+				return
+			}
+			// this flush is in flight (its commit has not started). Pacing: let a few
+			// more records be confirmed by the destinations and acknowledged, so that
+			// newer positions are registered with the persister behind this flush
+			base := -1
+			r.Log.WaitFor(func(evs []rig.Ev) bool {
+				if base < 0 {
+					base = len(evs)
+				}
+				c := 0
+				for q := base; q < len(evs); q++ {
+					if evs[q].Kind == rig.KDstAck {
+						c++
+					}
+				}
+				return c >= 4
+			}, 300*time.Millisecond)
+			time.Sleep(3 * time.Millisecond)
+			r.Log.Append(rig.Ev{Kind: rig.KNote, Note: "force stop issued while a flush is in flight"})
+			go func() { _ = r.Stop(context.Background(), sc.Topo.Pipeline, true) }()
+			// the commit of this flush stays in flight while the run is torn down
+			time.Sleep(30 * time.Millisecond)
+		})
+	}}
+}
 
 func gen(seed int64, tier string, idx int) *pipe.Scenario {
 	g := pipe.NewGen(seed, idx)
@@ -38,18 +86,35 @@ func gen(seed int64, tier string, idx int) *pipe.Scenario {
 		sc.Steps = append(sc.Steps, pipe.Step{AtEvent: 30 + g.R.Intn(300), Op: "stopwait"})
 	}
 	if idx%16 == 14 {
-		// slow commits while the pipeline is force stopped: the teardown's forced
-		// flush (cancelled context) must still queue behind the flush in flight
-		sc.Steps = []pipe.Step{{AtEvent: 40 + g.R.Intn(200), Op: "forcestop"}}
-		sc.Faults = nil
-		// every flush sleeps a pseudo-random time right before its commit
-		sc.Points = map[string]int{"connector.persister.before-commit": 8000 + g.R.Intn(20000)}
-		sc.PointSeed = g.R.Int63()
-		// timer-driven flushes (a bundle-driven flush would make Source.Ack itself
-		// wait for the flush in flight, so nothing could pile up behind it)
-		sc.PersistDelayUs = 200
-		sc.PersistBundle = 100
-		sc.Store = "badger"
+		// a slow commit in flight, newer acknowledgments registered behind it, and a
+		// force stop right then: the teardown's forced flush (cancelled context) must
+		// still queue behind the flush in flight. The force stop is issued by a
+		// harness action at the scheduling point before the commit of the k-th flush
+		// (see hooks below), which also keeps that commit in flight for 30 ms more.
+		sc.Steps, sc.Faults = nil, nil
+		sc.Name = fmt.Sprintf("forced-flush-overlap:%d", 1+g.R.Intn(3))
+		// records keep flowing while the flush is in flight
+		for i := range sc.Topo.Sources {
+			sc.Topo.Sources[i].Src.Batches = []int{1, 2, 3}
+			sc.Topo.Sources[i].Src.PaceUs = 800 + g.R.Intn(1500)
+			if sc.Records[i] < 150 {
+				sc.Records[i] = 150
+			}
+		}
+		for i := range sc.Topo.Dests {
+			sc.Topo.Dests[i].Dst.NackPermille = 0
+			sc.Topo.Dests[i].Dst.NackIdx = nil
+		}
+		// timer-driven flushes only, with a delay well above the 30 ms window: a
+		// bundle-driven flush would make Source.Ack itself wait for the flush in
+		// flight, and a timer-driven one that fires inside the window queues behind
+		// it holding the persister's lock - either way nothing would be left in the
+		// batch for the forced flush to write
+		sc.PersistDelayUs = []int{60000, 90000}[g.R.Intn(2)]
+		sc.PersistBundle = 1000
+		if g.R.Intn(2) == 0 {
+			sc.Store = "badger"
+		}
 	}
 	if idx%16 == 6 {
 		// the stored position must not pass a record that was neither delivered
@@ -96,6 +161,6 @@ func init() {
 		Quick:    320, Thorough: 3200,
 		PointBias: []string{"connector.persister.before-commit", "connector.persister.after-commit", "connector.persister.callback", "connector.source.ack", "funnel.worker.ack", "funnel.worker.nack", "funnel.multiack.ack", "funnel.multiack.nack"},
 		Anchors:   []string{"pkg/connector/source.go", "pkg/connector/persister.go", "pkg/connector/store.go", "pkg/connector/service.go"},
-		Gen:       gen, Judge: judge,
+		Gen:       gen, Judge: judge, Hooks: hooks,
 	})
 }
